@@ -57,6 +57,13 @@ BEHAVIOURS = {
     "c-unsigned": "{ unsigned w = RsV; RddV = w; RxV = w >> 4; }",
     "c-cast-unsigned-int": "{ RddV = (unsigned int)RsV; RxV = (int)RtV; }",
     "c-int64": "{ int64_t q = RsV; uint64_t p = RtV; RddV = q + p; }",
+    # typed constants: folds that change the type of a constant, and later uses of constants with the same suffix
+    "k-neg-u": "{ RdV = -1U; }",
+    "k-neg-ull-fail": "{ RddV = -3ULL; goto out; }",
+    "k-not-ll": "{ RddV = ~5LL + -7; }",
+    "k-cmp-u": "{ RdV = (RsV < 2U) ? 1 : 0; RxV = RsV >> 1U; }",
+    "k-cmp-ull": "{ RddV = (RssV < 2ULL) ? 1 : 0; }",
+    "k-cmp-plain": "{ RdV = (RsV < 2) + (RssV > 3LL); }",
     # several value-producing operations consumed by one statement (their order is part of the meaning)
     "tmp-three": "{ int32_t i = 0; RdV = clz32(RsV) + i++ + clo32(RtV); }",
     "tmp-sat-chain": "{ RdV = (clz32(RsV) > 3) ? ({ set_usr_field(bundle, HEX_REG_FIELD_USR_OVF, 1); clo32(RtV); }) : fbrev(RsV); }",
